@@ -271,6 +271,12 @@ def check_safe_doc(h, text, info, ctx, tagged=True, untagged_text=None, cls='pro
                     ctx.stat('merge_source_tag_ignored')
                     ctx.violation(case, dict(who, what='non-core tag directly on a merge source is ignored, not rejected (no effect on the result)'), 'F13')
                     continue
+            if info.get('value_key'):
+                st2, res2, _ = h.load(untagged_text, lname, as_bytes, fn)
+                if st2 == 'ok' and bisim.diff(res, res2, ordered=True) is None:
+                    ctx.stat('value_key_tag_ignored')
+                    ctx.violation(case, dict(who, what='non-core tag on or beside the value of a "=" key under a scalar core tag is ignored, not rejected (no effect on the result)'), 'F22')
+                    continue
             ctx.violation(case, dict(who, what='non-core tag accepted by a safe loader', result=repr(res)[:300]), None)
 
 
@@ -323,6 +329,9 @@ def product_docs(shard, of, sample, seed):
                 k += 1
 
 
+KEEP_ALIVE = []
+
+
 def app_registrations(canary):
     """What applications do to the *other* loaders (module-level helpers with and without Loader=, class methods on
     the unsafe/full classes and on subclasses of the safe ones, YAMLObject): none of it may reach a safe loader.
@@ -359,6 +368,7 @@ def app_registrations(canary):
         tags += ['!app%d' % (i + 1), '!cls%d' % i, '!appm%d:x' % (i + 1), '!clsm%d:x' % i]
     for i, base in enumerate(yamlapi.loaders(['SafeLoader', 'CSafeLoader', 'BaseLoader'])):
         Sub = type('AppSub' + base, (getattr(yaml, base),), {})
+        KEEP_ALIVE.append(Sub)          # an application's loader class lives as long as the application: the state digest walks __subclasses__()
         Sub.add_constructor('!sub%d' % i, mk('sub_' + base))
         Sub.add_multi_constructor('!subm%d:' % i, mk('subm_' + base, True))
         yaml.add_constructor('!subf%d' % i, mk('subf_' + base), Loader=Sub)
